@@ -1017,6 +1017,10 @@ fn small_programs() -> Vec<(u16, Vec<u16>, bool, &'static str)> {
         // directives beyond it exist but are not valid locations
         (0xFDFE, vec![0x1021, 0x1021, 0x1021, 0xF025, 0xF025], false, "straddle-top"),
         (0xFDFF, vec![0x1021, 0xF025, 0x1021, 0xF025], false, "straddle-top-1"),
+        // the program leaves its own image (a jump into untouched memory inside user space, which
+        // reads as NOPs up to the end of user space): run-time breakpoints out there are breakpoints
+        (0x3000, vec![0x2002, 0xC000, 0xF025, 0xFD00], false, "jump-beyond-image"),
+        (0x3000, vec![0x2002, 0x4000, 0xF025, 0xFDF0], false, "jsrr-beyond-image"),
         // an image loaded above user space: no address at all is a valid location
         (0xFF00, vec![0x1021, 0x1021, 0xF025], false, "above-user-space"),
         (0xFE01, vec![0x1021, 0xF025], false, "above-user-space-1"),
@@ -1085,6 +1089,31 @@ fn many_writes_sessions(tag: &'static str) -> Vec<(DbgCase, &'static str)> {
         let mut c4 = c.clone();
         c4.cmds = vec![Cmd::Continue, Cmd::Reset, Cmd::MoveMem(Loc::Addr(base), 5), Cmd::Reset, Cmd::Continue, Cmd::Reset, Cmd::StepInto(5), Cmd::Reset, Cmd::Exit];
         out.push((c4, "many-writes"));
+    }
+    out
+}
+
+/// Run-time breakpoints at addresses that hold no statement of the program (beyond its image),
+/// reached by a jump: they pause like any other, fire again, and stop firing once removed.
+fn beyond_image_sessions(tag: &'static str) -> Vec<(DbgCase, &'static str)> {
+    let mut out = Vec::new();
+    let mut rng = Rng::new(0xBE70);
+    for (target, bp) in [(0xFD00u16, 0xFD10u16), (0xFD00, 0xFD00), (0xFDF0, 0xFDFF), (0x3005, 0x3006), (0x8000, 0x8001)] {
+        for variant in 0..3 {
+            let p = Prog { orig: 0x3000, words: vec![0x2002, 0xC000, 0xF025, target], inp: vec![], stack: false, minimal: true, kind: "jump-beyond-image" };
+            let mut c = decorate(&mut rng, &p, tag, vec![], 60_000);
+            c.breaks.clear();
+            c.labels.clear();
+            let mut cmds = vec![Cmd::BreakAdd(Loc::Addr(bp)), Cmd::BreakList, Cmd::Continue, Cmd::Registers];
+            match variant {
+                0 => cmds.extend([Cmd::Goto(Loc::Addr(target)), Cmd::Continue, Cmd::Registers]),
+                1 => cmds.extend([Cmd::BreakRemove(Loc::Addr(bp)), Cmd::Goto(Loc::Addr(target)), Cmd::Continue, Cmd::Registers]),
+                _ => cmds.extend([Cmd::StepOver, Cmd::Registers, Cmd::Goto(Loc::Addr(bp)), Cmd::StepInto(2), Cmd::Registers]),
+            }
+            cmds.push(Cmd::Exit);
+            c.cmds = cmds;
+            out.push((c, "jump-beyond-image"));
+        }
     }
     out
 }
@@ -1220,7 +1249,19 @@ fn below_zero_sessions(tag: &'static str) -> Vec<(DbgCase, &'static str)> {
                     });
                     cmds.extend([Cmd::PrintMem(Loc::Addr(0)), Cmd::BreakList, Cmd::Registers, Cmd::Exit]);
                     c.cmds = cmds;
-                    out.push((c, kind));
+                    out.push((c.clone(), kind));
+                    // the same in the normal output mode with the source view of every statement
+                    if variant == 0 && off == 0 {
+                        let mut c2 = c.clone();
+                        let mut cmds = vec![];
+                        for a in 0..(c2.words.len() as u16 + 1) {
+                            cmds.push(Cmd::Assembly(Loc::Addr(c2.orig.wrapping_add(a))));
+                        }
+                        cmds.extend([Cmd::Assembly(Loc::Pc(0)), Cmd::BreakAdd(Loc::Pc(1)), Cmd::BreakList, Cmd::Continue, Cmd::Assembly(Loc::Pc(0)), Cmd::Exit]);
+                        c2.cmds = cmds;
+                        c2.nm = true;
+                        out.push((c2, kind));
+                    }
                 }
             }
         }
@@ -1546,6 +1587,15 @@ pub fn run_prop(o: &crate::Opts, tag: &'static str) {
             if i % o.nshards != o.shard {
                 continue;
             }
+            let obs = run_debug(&mut cap, &c);
+            let v = if obs.line == "panic" { "-".to_string() } else { verdict(&mut cap, tag, &c, &obs) };
+            *kinds.entry(format!("directed-{}:{}", kind, obs.line.split(' ').next().unwrap_or(""))).or_default() += 1;
+            *verdicts.entry(v.clone()).or_default() += 1;
+            sink.put(&c.request(), &format!("{} | {}", obs.line, v));
+        }
+    }
+    if o.shard == 7 % o.nshards && (tag == "D10" || tag == "D11") {
+        for (c, kind) in beyond_image_sessions(tag) {
             let obs = run_debug(&mut cap, &c);
             let v = if obs.line == "panic" { "-".to_string() } else { verdict(&mut cap, tag, &c, &obs) };
             *kinds.entry(format!("directed-{}:{}", kind, obs.line.split(' ').next().unwrap_or(""))).or_default() += 1;
